@@ -138,6 +138,10 @@ def fam_retry(rnd, n, overrun=True, checks=True):
         for r, s2, lat in [(1, ["lateok", "ok"], [0, 60000]), (2, ["lateok", "tr", "ok"], [0, 50000, 100]), (1, ["lateok", "perm"], [0, 60000])]:
             sh = shape([blk([2])], retries=r)
             res.append(scn(sh, "free", {"b1.s1.a1": s2}, lat={"b1.s1.a1": lat}, tag="retry-late", timeoutms=100, waitms=6000))
+    # Retries below zero: "less than no retry" is no retry - one invocation, recorded, final
+    for s in (["ok"], ["perm"], ["tr"], ["wrongtype"]):
+        res.append(scn(shape([blk([2])], retries=0), "free", {"b1.s1.a1": s, "b1.s1.a2": s}, tag="retry-negative", negretries=True))
+    res.append(scn(shape([blk([1], g={"pre": 1, "post": 1})], cretries=0), "free", {"b1.post.a1": ["tr"]}, tag="retry-negative", negretries=True))
     return res
 
 
